@@ -81,7 +81,7 @@ CHECKS = {
    note="One spelling per scalar; classes where the statement is silent (exclude values containing expressions, matrices without rows) are not compared."),
  "C20": dict(level="fault_enumeration", design="§4 C20",
    technique="trace monitor with fault enumeration: fake shellcheck/pyflakes tool with planned behaviours, tool-side log, hook event trace of the process pool, reference model of effective shell / sanitised stdin / expected diagnostics or fatal error; also under -race and NumCPU=2",
-   text="Every assignment of 8 tool behaviours (ok, 1 issue, 3 issues, exit!=0 without output, killed, garbage, killed after partial output, well-formed output followed by trailing text) to k<=4 invocations is enumerated (4680 patterns; all in thorough, a seeded sample in quick) on generated workflows whose shells come from step / job default / workflow default / runner. Checked per run: each eligible script reaches the right tool exactly once with the exact equally-long-placeholder stdin; issues become diagnostics at the run: key; failures become fatal errors; semaphore holders and live processes never exceed NumCPU (16 and, via taskset, 2); nothing of the pool runs after Lint* returned; every started run has ended.",
+   text="Every assignment of 9 tool behaviours (ok, 1 issue, 3 issues, exit!=0 without output, killed, garbage, killed after partial output, well-formed output followed by trailing text, exit 0 without any output) to k<=4 invocations is enumerated (7380 patterns; all in thorough, a seeded sample in quick) on generated workflows whose shells come from step / job default / workflow default / runner. Checked per run: each eligible script reaches the right tool exactly once with the exact equally-long-placeholder stdin; issues become diagnostics at the run: key; failures become fatal errors; semaphore holders and live processes never exceed NumCPU (16 and, via taskset, 2); nothing of the pool runs after Lint* returned; every started run has ended.",
    note="Tool-side intervals undercount lifetimes, so the bound cannot false-alarm. pyflakes garbage is ignored by design. strace-level observation is a thorough-tier extension."),
 }
 
